@@ -169,6 +169,12 @@ FileRegimes(Ss, Ws) ==
    \cup (IF \E i \in 1 .. n : pl(i).undone > 0 /\ \E j \in (i + 1) .. n : pl(j).hg < pl(i).hg THEN {"first-group-used-after-undo"} ELSE {})
    \cup (IF \E i \in 1 .. n : pl(i).undone > 0 /\ \E j \in (i + 1) .. n : pl(j).hg < pl(i).hg /\ Ss[j].fam = Ss[i].fam /\ {Ss[j].c, Ss[j].s} \cap {Ss[i].c} # {}
            THEN {"undone-host-looked-up-again"} ELSE {})
+   \* ... after another, new host went into the group the undone host had been taken out of (it may sit in the freed place)
+   \cup (IF \E i \in 1 .. n : pl(i).undone > 0 /\ \E j \in (i + 1) .. n :
+              /\ pl(j).hg < pl(i).hg /\ Ss[j].fam = Ss[i].fam
+              /\ \E h \in {Ss[j].c, Ss[j].s} : ~\E m \in 1 .. (j - 1) : Ss[m].fam = Ss[j].fam /\ h \in {Ss[m].c, Ss[m].s}
+              /\ \E k \in (j + 1) .. n : Ss[k].fam = Ss[i].fam /\ Ss[i].c \in {Ss[k].c, Ss[k].s}
+           THEN {"place-of-undone-host-taken-then-host-again"} ELSE {})
    \cup (IF \E i \in 1 .. n : pl(i).hg > 0 /\ \E g \in 1 .. pl(i).hg : W.groups[g].size = HostSize(Ss[i].fam) /\
               (\E p \in 0 .. (GHosts(W.groups[g]) - 1) : SubSeq(W.groups[g].bytes, p * W.groups[g].size + 1, (p + 1) * W.groups[g].size) \in {HostBytes(Ss[i].fam, Ss[i].c), HostBytes(Ss[i].fam, Ss[i].s)})
            THEN {"host-stored-in-two-groups"} ELSE {})
